@@ -208,12 +208,17 @@ class WSGIContainer:
         .. versionchanged:: 6.3
            No longer a static method.
         """
-        hostport = request.host.split(":")
-        if len(hostport) == 2:
-            host = hostport[0]
-            port = int(hostport[1])
+        # The port is whatever follows the last colon, if that is all digits
+        # (it may be empty); IPv6 literals contain colons of their own.
+        host, sep, port_str = request.host.rpartition(":")
+        if sep and len(port_str) <= 5 and (
+            port_str == "" or (port_str.isascii() and port_str.isdecimal())
+        ):
+            port = int(port_str) if port_str else None
         else:
             host = request.host
+            port = None
+        if port is None:
             port = 443 if request.protocol == "https" else 80
         environ = {
             "REQUEST_METHOD": request.method,
